@@ -133,7 +133,7 @@ fn frames(seed: u64, budget: u64, hostile: bool, file: &str) -> (u64, Vec<u64>, 
         evals += 1;
         let mut d = FrameDecoder::new();
         // valid frames may declare large windows (allocated lazily on a fresh decoder); hostile ones get a small limit
-        d.set_max_window_size(if hostile { 1 << 20 } else { 1 << 31 });
+        d.set_max_window_size(if hostile { 1 << 20 } else { u64::MAX });
         let got: Result<Vec<u8>, String> = match entry {
             0 => match StreamingDecoder::new_with_decoder(&bytes[..], &mut d) {
                 Err(e) => Err(e.to_string()),
